@@ -52,7 +52,7 @@ func encodeObjTypeAndLen(buf encoding.Bufferer, objType int, u uint64) []byte {
 
 func decodeObjTypeAndLen(r io.Reader) (objType int, u uint64, err error) {
 	b := make([]byte, 1)
-	_, err = r.Read(b)
+	_, err = io.ReadFull(r, b)
 	if err != nil {
 		return
 	}
@@ -60,7 +60,8 @@ func decodeObjTypeAndLen(r io.Reader) (objType int, u uint64, err error) {
 	u = uint64(b[0] & 15)
 	bits := 4
 	for {
-		_, err = r.Read(b)
+		// a reader may deliver the last byte of the stream together with io.EOF
+		_, err = io.ReadFull(r, b)
 		if errors.Is(err, io.EOF) {
 			return 0, 0, fmt.Errorf("reading size: data corrupted")
 		}
